@@ -488,6 +488,13 @@ inline py::tuple StructSequenceGetFields(const py::handle& object) {
 }
 
 inline void TotalOrderSort(py::list& list) {  // NOLINT[runtime/references]
+    // A failed in-place sort leaves the list partially permuted. Keep a copy of the original order
+    // so that it can be restored if the keys turn out to be unsortable.
+    const py::ssize_t size = ListGetSize(list);
+    if (size < 2) [[unlikely]] {
+        return;
+    }
+    const py::list original = py::reinterpret_steal<py::list>(PyList_GetSlice(list.ptr(), 0, size));
     try {
         // Sort directly if possible.
         if (static_cast<bool>(EVALUATE_WITH_LOCK_HELD(PyList_Sort(list.ptr()), list)))
@@ -516,6 +523,10 @@ inline void TotalOrderSort(py::list& list) {  // NOLINT[runtime/references]
                     // Found incomparable user-defined key types.
                     // The keys remain in the insertion order.
                     PyErr_Clear();
+                    if (PyList_SetSlice(list.ptr(), 0, ListGetSize(list), original.ptr()) < 0)
+                        [[unlikely]] {
+                        throw py::error_already_set();
+                    }
                 } else [[unlikely]] {
                     std::rethrow_exception(std::current_exception());
                 }
